@@ -127,9 +127,15 @@ TLazyOp == IsEvent("lazy_op") /\ LET e == Rec[l] IN
                      /\ lz.valid
                      /\ LET delta == e.nc - lz.nc
                             forced == IF lz.st = "Encoding" THEN cost.dec ELSE 0
-                        IN IF lz.st = "Encoding" /\ cost.dec = -1 THEN delta >= 0 /\ cost' = cost
+                        IN IF (lz.st = "Encoding" /\ cost.dec = -1) \/ e.op \in {"S", "T"}
+                           THEN delta >= 0 /\ cost' = cost        \* (how many constraints a selection emits may depend on what its operands have cached)
                            ELSE delta >= forced /\ cost' = Bind(cost, e.op, delta - forced) /\ cost'[e.op] = delta - forced
                      /\ lz' = [lz EXCEPT !.st = "Element", !.from = "element", !.pt = Mutated(e.op, LzElt), !.nc = e.nc, !.nw = e.nw]
+                ELSE IF e.op = "Q"
+                THEN \* enforce_equal against a second variable of the same value: compares ELEMENTS, so this variable's
+                     \* element is forced (an invalid encoding makes the system unsatisfiable from here on)
+                     /\ e.nc >= lz.nc /\ cost' = cost
+                     /\ lz' = [lz EXCEPT !.st = LazyAfterForceElement(lz.st), !.nc = e.nc, !.nw = e.nw]
                 ELSE LET wantsEnc == e.op = "C"
                          st2 == IF wantsEnc THEN LazyAfterForceEncoding(lz.st) ELSE LazyAfterForceElement(lz.st)
                          delta == e.nc - lz.nc
